@@ -45,6 +45,8 @@ func init() {
 			ruleCloseOrder(w, r, "R11.3")
 			ruleCascade(w, r, "R11.3c")
 			ruleSortedCreation(w, r, "R11.5")
+			r.Rule("R11.6", 1, "a list whose snapshot Close takes by plain copy is never compacted or overwritten in place")
+			ruleSnapshotFieldsNotMutatedInPlace(w, r, "R11.6", la)
 		})
 
 	register("C12",
@@ -71,12 +73,14 @@ func init() {
 			r.Rule("R13.2", 3, "cascade")
 			r.Rule("R13.2g", 2, "R-GATE: the flag is set before anything else, so later entry checks fail")
 			r.Rule("R13.3", 6, "typestate of tables reset by Close")
+			r.Rule("R13.3s", 4, "a table's snapshot and its reset happen inside one critical section")
 			r.Rule("R13.3b", 5, "a scope that arrives after its owner was closed is closed, not handed out or leaked")
 			r.Rule("R13.4", 2, "one watcher per CreateScope, on this context, closing this scope")
 			ruleEntry(w, r, "R13.1")
 			ruleCascade(w, r, "R13.2")
 			ruleGate(w, r, "R13.2g")
 			checkTypestateAs(w, r, la, "R13.3")
+			ruleSwap(w, r, "R13.3s", la)
 			ruleCancelOwnership(w, r, "R13.3b")
 			ruleWatcher(w, r, "R13.4")
 		})
